@@ -153,6 +153,24 @@ def adversarial(rng, fam_idx):
     return A
 
 
+def layered(rng, k):
+    width = (2, 2, 4, 3, 2, 8)[k % 6]
+    nlayers = int(rng.integers(max(3, 66 // width + 1), 140 // width + 1)) if k % 4 else (66 // width + 1, 64 // width + 1, 3, 17)[(k // 4) % 4]
+    nlayers = max(nlayers, 3)
+    p = width * nlayers + int(rng.integers(0, 5))
+    ring = bool(k % 2)
+    lab = [int(v) for v in rng.permutation(p)]
+    dt = (np.int64, float, np.int8, bool, np.float32, np.int32)[(k // 2) % 6]
+    A = np.zeros((p, p), dtype=dt)
+    for L in range(nlayers if ring else nlayers - 1):
+        for a in range(width):
+            for b in range(width):
+                A[lab[L * width + a], lab[((L + 1) % nlayers) * width + b]] = 1
+    if dt in (np.int64, float) and k % 3 == 0:
+        A = A * (-1 if k % 2 else 3)
+    return A
+
+
 def gen(tier, seed, shard, nshards):
     idx = 0
     # (a) exhaustive
@@ -181,6 +199,13 @@ def gen(tier, seed, shard, nshards):
         if k % nshards == shard:
             rng = util.rng_for("C03", seed, "adv", k)
             yield "adversarial", {"A": adversarial(rng, k)}
+    # (b') wide layered graphs on 65..140 nodes: consecutive layers completely connected, closed to a ring (cyclic) or left open
+    # (acyclic): the number of directed walks between two nodes is width^length - it wraps around in any integer type and
+    # overflows float32, so only implementations that look at the non-zero pattern get these right
+    for k in range(48 if tier == "quick" else 640):
+        if k % nshards == shard:
+            rng = util.rng_for("C03", seed, "layered", k)
+            yield ("constructor" if k % 8 == 7 else "adversarial"), dict({"A": layered(rng, k)}, **({"which": "LGANM"} if k % 8 == 7 else {}))
     # (c) constructors
     for k in range(N_CTOR[tier]):
         if k % nshards == shard:
